@@ -11,13 +11,13 @@ From mathcomp Require Import all_ssreflect ssralg zmodp matrix mxalgebra.
 From mathcomp Require Import ssrZ.
 From Coq Require Import QArith Qcanon.
 From RNT.Model Require Import Base Poly LinAlg.
-From RNT.Refine Require Import QcField LinAlgQc.
+From RNT.Refine Require Import QcField LinAlgQc LinAlgImg LinAlgMxImg LinAlgImgTotal.
 Local Close Scope Z_scope.
 Local Close Scope Q_scope.
+Local Close Scope Qc_scope.
 Local Open Scope ring_scope.
 
-Definition q (z : Z) : Qc := Q2Qc (inject_Z z).
-Definition qm (a : list (list Z)) : list (list Qc) := List.map (List.map q) a.
+(** [qz z] is the integer z as a BigRational, [qzm] maps it over an integer matrix (examples only). *)
 
 (** ** determinant *)
 
@@ -33,8 +33,8 @@ Theorem determinant_returns (a : list (list Qc)) :
 Proof. exact (@determinant_total a). Qed.
 
 Example determinant_ex :
-  square (qm [[3; 2; 1]; [-1; 2; 2]; [-2; -3; 2]]%Z) /\
-  omap this (determinant fopsQc (qm [[3; 2; 1]; [-1; 2; 2]; [-2; -3; 2]]%Z)) = Done (33 # 1)%Q.
+  square (qzm [[3; 2; 1]; [-1; 2; 2]; [-2; -3; 2]]%Z) /\
+  omap this (determinant fopsQc (qzm [[3; 2; 1]; [-1; 2; 2]; [-2; -3; 2]]%Z)) = Done (33 # 1)%Q.
 Proof. split; [by repeat constructor|by vm_compute]. Qed.
 
 (** ** matrix::inv *)
@@ -61,9 +61,9 @@ Theorem inv_singular_spec (a : list (list Qc)) :
 Proof. exact (@inv_singular a). Qed.
 
 Example inv_ex_ok :
-  square (qm [[5; 2]; [2; 1]]%Z) /\ exists b, inv fopsQc (qm [[5; 2]; [2; 1]]%Z) = Done (Ok b).
+  square (qzm [[5; 2]; [2; 1]]%Z) /\ exists b, inv fopsQc (qzm [[5; 2]; [2; 1]]%Z) = Done (Ok b).
 Proof. split; [by repeat constructor|by eexists; vm_compute]. Qed.
-Example inv_ex_err : inv fopsQc (qm [[1; 2]; [2; 4]]%Z) = Done (Err MatrixNotInvertible).
+Example inv_ex_err : inv fopsQc (qzm [[1; 2]; [2; 4]]%Z) = Done (Err MatrixNotInvertible).
 Proof. by vm_compute. Qed.
 
 (** ** solve_linear_system: solves x * a = b *)
@@ -85,8 +85,14 @@ Theorem solve_nonsingular (a : list (list Qc)) (b : list Qc) :
   exists x, solve_linear_system fopsQc a b = Done (Ok x).
 Proof. exact (@solve_complete a b). Qed.
 
+(** [P] a singular square system gets [Err] (no panic, never a wrong [Ok]) *)
+Theorem solve_singular_spec (a : list (list Qc)) (b : list Qc) :
+  square a -> length b = length a -> let n := length a in \det (qmx n n a) = 0 ->
+  solve_linear_system fopsQc a b = Done (Err MatrixNotInvertible).
+Proof. exact (@solve_singular a b). Qed.
+
 Example solve_ex :
-  exists x, solve_linear_system fopsQc (qm [[1; 2]; [3; 4]]%Z) [:: q 5; q 8] = Done (Ok x)
+  exists x, solve_linear_system fopsQc (qzm [[1; 2]; [3; 4]]%Z) [:: qz 5; qz 8] = Done (Ok x)
             /\ List.map this x = [:: (2 # 1)%Q; (1 # 1)%Q].
 Proof. by eexists; split; vm_compute. Qed.
 
@@ -147,12 +153,12 @@ Theorem iim_complete_spec (mmat vmat : list (list Qc)) :
 Proof. exact (@iim_complete mmat vmat). Qed.
 
 Example iim_ex_ok :
-  exists x, iim fopsQc (qm [[1; 0; 1]; [2; 0; 3]]%Z) (qm [[1; 0; -1]]%Z) = Done (Ok x)
+  exists x, iim fopsQc (qzm [[1; 0; 1]; [2; 0; 3]]%Z) (qzm [[1; 0; -1]]%Z) = Done (Ok x)
             /\ List.map (List.map this) x = [:: [:: (5 # 1)%Q; (-2 # 1)%Q]].
 Proof. by eexists; split; vm_compute. Qed.
-Example iim_ex_dep : iim fopsQc (qm [[1; 0]; [2; 0]]%Z) (qm [[3; 1]]%Z) = Done (Err LinearlyDependent).
+Example iim_ex_dep : iim fopsQc (qzm [[1; 0]; [2; 0]]%Z) (qzm [[3; 1]]%Z) = Done (Err LinearlyDependent).
 Proof. by vm_compute. Qed.
-Example iim_ex_notin : iim fopsQc (qm [[1; 0; 1]; [2; 0; 3]]%Z) (qm [[3; 1; 4]]%Z) = Done (Err NotInImage).
+Example iim_ex_notin : iim fopsQc (qzm [[1; 0; 1]; [2; 0; 3]]%Z) (qzm [[3; 1; 4]]%Z) = Done (Err NotInImage).
 Proof. by vm_compute. Qed.
 
 (** ** subspace::supplement_basis (k = number of rows, n = number of columns of the first row) *)
@@ -178,11 +184,46 @@ Theorem supplement_complete_spec (mmat : list (list Qc)) :
 Proof. exact (@supplement_complete mmat). Qed.
 
 Example supplement_ex_ok :
-  exists B, supplement_basis fopsQc (qm [[0; 0; 1]; [0; 2; 3]]%Z) = Done (Ok B)
+  exists B, supplement_basis fopsQc (qzm [[0; 0; 1]; [0; 2; 3]]%Z) = Done (Ok B)
             /\ List.map (List.map this) B
                = [:: [:: (0 # 1)%Q; (0 # 1)%Q; (1 # 1)%Q]; [:: (0 # 1)%Q; (2 # 1)%Q; (3 # 1)%Q];
                      [:: (1 # 1)%Q; (0 # 1)%Q; (0 # 1)%Q]].
 Proof. by eexists; split; vm_compute. Qed.
 Example supplement_ex_err :
-  supplement_basis fopsQc (qm [[1; 0; 1]; [2; 0; 2]]%Z) = Done (Err InsufficientRank).
+  supplement_basis fopsQc (qzm [[1; 0; 1]; [2; 0; 2]]%Z) = Done (Err InsufficientRank).
 Proof. by vm_compute. Qed.
+
+(** ** subspace::image_mod_p (p prime, entries reduced to [0, p) as the code's zero test requires)
+
+    [fmx p m d a] reads a list of integer rows as a d x m matrix over the field 'F_p; [zent a s q] is
+    the integer entry a[s][q]. *)
+
+(** [P] the output rows are rows of the input, they are linearly independent modulo p and span the same
+    space modulo p as all the input rows: a basis of the image taken from the input rows *)
+Theorem image_mod_p_spec (p' : nat) (M out : list (list Z)) :
+  prime p' ->
+  let n := length M in let m := length (List.nth 0 M [::]) in
+  (forall s q : nat, s < n -> q < m -> (0 <= zent M s q < Z.of_nat p')%Z) ->
+  image_mod_p M (Z.of_nat p') = Done out ->
+  [/\ List.Forall (fun r => List.In r M) out,
+      row_free (fmx p' m (length out) out)
+    & (fmx p' m n M :=: fmx p' m (length out) out)%MS].
+Proof. exact (@image_mod_p_correct p' M out). Qed.
+
+(** [P] no panic (indexing, division, the routine's own [assert_eq!]) on any rectangular matrix with at
+    least one row and any non-zero modulus *)
+Theorem image_mod_p_returns (M : list (list Z)) (p : Z) :
+  p <> 0%Z -> (0 < length M)%coq_nat ->
+  List.Forall (fun r => length r = length (List.nth 0 M [::])) M ->
+  exists out, image_mod_p M p = Done out.
+Proof. exact (@image_mod_p_total M p). Qed.
+
+Example image_mod_p_ex :
+  prime 5 /\
+  (forall s q : nat, s < 3 -> q < 3 ->
+     (0 <= zent [[1; 3; 2]; [2; 1; 3]; [0; 0; 1]]%Z s q < Z.of_nat 5)%Z) /\
+  image_mod_p [[1; 3; 2]; [2; 1; 3]; [0; 0; 1]]%Z (Z.of_nat 5) = Done [[1; 3; 2]; [2; 1; 3]]%Z.
+Proof.
+split=> //; split; last by vm_compute.
+by move=> [|[|[|s]]] // [|[|[|q]]] // _ _; vm_compute; split=> // [[]].
+Qed.
